@@ -111,6 +111,25 @@ def run(ctx: Ctx):
     ex = [x for x in records if len(x["pairs"]) >= 3 and x["rev"]][:1] + [x for x in records if len(x["pairs"]) == 1][:1]
     for s in ex + records[-1:]:
         ctx.sample({"pairs": s["pairs"][:12], "rev": s["rev"], "hit": "".join(map(chr, s["hit"]))[:60]})
+    # ---- every record produced end to end (HitEnum column of the XMAP text), Trace_Xmap / C03 clauses
+    from props import pipe_common
+    res = pipe_common.explore(ctx, 16 if quick else 300, n_qry=12, salt=3,
+                              kinds=["dropped", "indel", "stretched", "split", "noisy", "partial", "mirror", "tiny",
+                                     "dropped", "indel", "exact", "chimeric"])
+    lines, out, r2 = pipe_common.validate_records(ctx, res, "C03")
+    ctx.notes["pipeline"] = {"inputs": len(res), "records": len(lines),
+                             "records_with_gaps": sum(1 for ln in lines if any(c in (68, 73) for c in ln["rec"]["hit"])),
+                             "one_pair_records": sum(1 for ln in lines if len(ln["rec"]["pairs"]) == 1)}
+    for ln in lines:
+        if any(c in (68, 73) for c in ln["rec"]["hit"]):
+            ctx.nontrivial(("file", ln["tag"]["input"], ln["tag"]["mode"], ln["tag"]["file"], ln["rec"]["q"]))
+    for ln, mine, drift, allf in out:
+        if mine:
+            ctx.violation(ln, mine, "", what=f"input={ln['tag']['input']} mode={ln['tag']['mode']} "
+                                             f"file={ln['tag']['file']} query={ln['rec']['q']} "
+                                             f"hit={''.join(map(chr, ln['rec']['hit']))[:40]!r}")
+        elif "hitenum_differs_from_spec" in drift and not allf:
+            ctx.add_drift(1, {"tag": ln["tag"]})
     th.join()
     if "err" in mc_res:
         raise mc_res["err"]
